@@ -162,9 +162,27 @@ func c19Exec(r *Run, line string) string {
 		k := seqtypes.SequencerByRollappByStatusKey(string(unhex(f[2])), string(unhex(f[3])), st)
 		in := bytes.HasPrefix(k, p)
 		if in != (f[1] == f[2]) {
-			r.Violate("C19/prefix_scan/sequencers-by-rollapp", fmt.Sprintf("scan for %q returns key of %q", unhex(f[1]), unhex(f[2])), line)
+			// the scan prefix carries no trailing separator.  Two ids that share their name (abc_1-1 is a
+			// byte prefix of abc_1-12) cannot both be registered (CheckIfRollappExists refuses the second
+			// name), so that case is a note (theorem sequencers_by_rollapp_scan_exact_counterexample);
+			// for ids with different names it is a violation.
+			// (the name is what precedes the first '_'; an id that NewChainID refuses — e.g. longer than 50
+			// bytes — cannot be registered at all)
+			na := strings.SplitN(string(unhex(f[1])), "_", 2)[0]
+			nb := strings.SplitN(string(unhex(f[2])), "_", 2)[0]
+			if na == nb {
+				r.Hit("seqscan-same-name-ids-scan-not-exact(unregistrable pair)")
+			} else {
+				r.Violate("C19/prefix_scan/sequencers-by-rollapp", fmt.Sprintf("scan for %q returns key of %q", unhex(f[1]), unhex(f[2])), line)
+			}
 		}
 		return strconv.FormatBool(in)
+	}
+	if obs, ok := c19ExecColl(r, line, f); ok {
+		return obs
+	}
+	if obs, ok := c19ExecX(r, line, f); ok {
+		return obs
 	}
 	return c19Exec2(r, line, f)
 }
@@ -1121,6 +1139,14 @@ func TestC19(t *testing.T) {
 	}
 	n := r.N(16000, 220000)
 	for i := 0; i < n; i++ {
+		if g.Chance(30) {
+			if g.Chance(60) {
+				c19GenColl(r, g, emit)
+			} else {
+				c19GenX(r, g, emit)
+			}
+			continue
+		}
 		if g.Chance(70) {
 			switch g.Intn(3) {
 			case 0:
@@ -1200,9 +1226,8 @@ func TestC19(t *testing.T) {
 			if g.Chance(30) {
 				b = a
 			}
-			// distinct registered ids have distinct names: skip pairs with equal names but different ids
-			if a != b && strings.Split(a, "_")[0] == strings.Split(b, "_")[0] {
-				continue
+			if g.Chance(15) {
+				b = a + strconv.Itoa(g.Intn(10)) // same name, one id a byte prefix of the other: the monitor decides
 			}
 			emit("seqscan", fmt.Sprintf("seqscan %s %s %s %d", Hex([]byte(a)), Hex([]byte(b)), Hex(c19Bytes(g)), g.Intn(2)))
 		}
